@@ -133,6 +133,12 @@ func requests(std *svc.Std) []ReqSpec {
 	add(ReqSpec{Kind: "http", Verb: "GET", Path: "/v1/echo/x%2Fy", Query: "n=1", Escaped: true})
 	add(ReqSpec{Kind: "http", Verb: "GET", Path: "/v1/echo/caf%C3%A9", Query: "n=2", Escaped: true})
 	add(ReqSpec{Kind: "http", Verb: "PATCH", Path: "/v1/sub/k%21", Query: "x=1", Header: jh, Body: []byte(`{"a":"x","l":"7"}`), Escaped: true})
+	// verbs outside the usual set: the mux routes on any verb (custom kinds,
+	// the any-verb implicit binding, its own JSON error for unbound verbs)
+	for _, verb := range []string{"PURGE", "REPORT", "LOCK", "PROPFIND", "HEAD", "OPTIONS", "TRACE", "get"} {
+		add(ReqSpec{Kind: "http", Verb: verb, Path: "/v1/echo/xyz"})
+		add(ReqSpec{Kind: "http", Verb: verb, Path: std.Full("Echo"), Header: jh, Body: chunkJSON("v")})
+	}
 	add(ReqSpec{Kind: "http", Verb: "DELETE", Path: "/v1/echo"})
 	add(ReqSpec{Kind: "http", Verb: "GET", Path: "/v1/nothing/here"})
 	add(ReqSpec{Kind: "http", Verb: "GET", Path: "/v1"})
